@@ -376,6 +376,54 @@ class Facts:
                 st.append(c.id)
         return out
 
+    def callers_of(self, fid):
+        """bodies with a direct (resolved) call to fid"""
+        if "_callers" not in self.__dict__:
+            rev = {}
+            for f in self.body_fns():
+                for c in f.calls():
+                    if c.target_id and not f.is_cleanup(c.bb):
+                        rev.setdefault(c.target_id, set()).add(f.id)
+            self.__dict__["_callers"] = rev
+        return self.__dict__["_callers"].get(fid, set())
+
+    def host_units(self):
+        """the bodies a whole-crate site rule should walk so that an extract-method refactoring does not change what it sees:
+        every body with its private helpers virtually inlined (a call site inside a helper shared by two callers is seen once
+        in each caller, as it was before the extraction); a private helper that no caller's view contains (too deep / too
+        large to inline) stays a unit of its own, so nothing is lost"""
+        if "_host_units" not in self.__dict__:
+            views, covered = [], set()
+            helpers = []
+            for f in self.body_fns():
+                if f.kind in ("fn", "method") and is_private_helper(f):
+                    helpers.append(f)
+                    continue
+                v = self.inlined(f, light=False)
+                covered |= set(v.j.get("inlined") or [])
+                views.append(v)
+            for _ in range(3):      # helpers inlined into helpers that are themselves units
+                for h in helpers:
+                    if h.name not in covered and all(h.id != v.id for v in views):
+                        v = self.inlined(h, light=False)
+                        covered |= set(v.j.get("inlined") or [])
+                        views.append(v)
+            self.__dict__["_host_units"] = views
+        return self.__dict__["_host_units"]
+
+    def hosts_of(self, fn, _depth=0):
+        """the functions a body belongs to for who-may-do-what rules: itself, unless it is a private helper (extract-method) -
+        then the functions that call it, transitively; a closure belongs to the function it is written in"""
+        root = self.fns.get(fn.j.get("root")) or fn
+        if not is_private_helper(root) or _depth > 4:
+            return {root.name}
+        out = set()
+        for cid in self.callers_of(root.id):
+            g = self.fns.get(cid)
+            if g is not None and g.id != root.id:
+                out |= self.hosts_of(g, _depth + 1)
+        return out or {root.name}
+
     def inlined(self, fn, light=True):
         """fn with its type's private, non-anchor helper methods virtually inlined (cached); light=False keeps calls to
         public methods of small record types as calls"""
